@@ -72,5 +72,61 @@ add("c20_gc_n4", 2, "gc_content/gc3_content, length 4")
 add("c20_gc_n6", 3, "gc_content/gc3_content, length 6")
 add("c20_gc_n7", 4, "gc_content/gc3_content, length 7")
 
+# ---------------------------------------------------------------------------------------------------------------- C08
+add = prop("C08", "c08",
+ "Bounded model checking of the real ShiftAnd / BNDM / KMP code: for each listed (pattern length m, text length n, alphabet) ALL pattern and text contents are covered by one solver query; the iterator must yield exactly the naive-scan occurrence starts in increasing order and then None; texts shorter than the pattern and reuse of one matcher on two texts are separate instances; the 63/64-symbol boundary of the bit-parallel matchers is covered with a concrete period-3 pattern and ALL texts over {A,C}.",
+ "Bound: m<=3, n<=6 over 3 symbols and m=2,n=3 over all 256 byte values (quick), m<=3,n<=8 (thorough); m in {63,64} with n in {64,65,67} for ShiftAnd and BNDM with a concrete pattern. " + TRUST + "Not decided: Horspool (vec![m; 256] + symbolic shifts: timeout 10 min at m=1) and BOM (Vec<VecMap> whose shape depends on symbolic symbols: out of memory at m=1).",
+ ["bio::pattern_matching::shift_and::{ShiftAnd::new, ShiftAnd::find_all, masks, Matches::next}", "bio::pattern_matching::bndm::{BNDM::new, BNDM::find_all, Matches::next}", "bio::pattern_matching::kmp::{KMP::new, KMP::find_all, KMP::delta, lps, Matches::next}"],
+ "see level_note", "Horspool, BOM; patterns longer than 3 symbols except the 63/64 boundary instances; texts longer than 8 (67 for the boundary instances)",
+ [])
+for h, t, b, tier in [
+ ("c08_shiftand_m1_n3_a3", 8, "ShiftAnd m=1 n=3, bytes < 3", "quick"), ("c08_shiftand_m2_n5_a3", 33, "ShiftAnd m=2 n=5, bytes < 3", "quick"),
+ ("c08_shiftand_m3_n6_a3", 79, "ShiftAnd m=3 n=6, bytes < 3", "quick"), ("c08_shiftand_m2_n3_a256", 56, "ShiftAnd m=2 n=3, all byte values", "quick"),
+ ("c08_shiftand_m3_n8_a3", 179, "ShiftAnd m=3 n=8, bytes < 3", "thorough"), ("c08_reuse_shiftand", 78, "one ShiftAnd (m=2), texts of length 4 and 3", "quick"),
+ ("c08_bndm_m1_n3_a3", 35, "BNDM m=1 n=3, bytes < 3", "quick"), ("c08_bndm_m2_n3_a256", 319, "BNDM m=2 n=3, all byte values", "thorough"),
+ ("c08_bndm_m2_n5_a3", 457, "BNDM m=2 n=5, bytes < 3", "thorough"),
+ ("c08_kmp_m1_n3_a3", 34, "KMP m=1 n=3, bytes < 3", "quick"), ("c08_kmp_m2_n3_a256", 26, "KMP m=2 n=3, all byte values", "quick"),
+ ("c08_kmp_m2_n5_a3", 89, "KMP m=2 n=5, bytes < 3", "quick"), ("c08_kmp_m3_n6_a3", 120, "KMP m=3 n=6, bytes < 3", "quick"),
+ ("c08_kmp_m3_n8_a3", 340, "KMP m=3 n=8, bytes < 3", "thorough"), ("c08_reuse_kmp", 123, "one KMP (m=2), texts of length 4 and 3", "quick"),
+ ("c08_shiftand_fixed_m63_n64", 125, "ShiftAnd, concrete period-3 pattern of 63 symbols, all texts of length 64 over {A,C}", "quick"),
+ ("c08_shiftand_fixed_m64_n64", 130, "ShiftAnd, concrete pattern of 64 symbols (documented maximum), all texts of length 64 over {A,C}", "quick"),
+ ("c08_shiftand_fixed_m64_n65", 140, "ShiftAnd, concrete pattern of 64 symbols, all texts of length 65 over {A,C}", "quick"),
+]:
+    add(h, t, b, tier=tier)
+add("c08_bndm_sparse_m64_n64_k0", 16, "BNDM, concrete pattern of 64 symbols (documented maximum) on the one concrete text equal to the pattern: shape-only guard for the 64-symbol boundary (a symbolic text at this length exhausts memory)", min_covers=1)
+
+# ---------------------------------------------------------------------------------------------------------------- C05
+add = prop("C05", "c05",
+ "Bounded model checking of the real provided method FMIndexable::backward_search (LF-mapping loop, interval bookkeeping, Complete/Partial/Absent classification) and Interval semantics: for each listed (text length n, pattern length m, alphabet) ALL texts (last symbol '$', optionally a second sentinel at a symbolic position), the suffix array as the unique array satisfying the sortedness predicate, and ALL sentinel-free patterns are covered by one solver query; results are compared with a naive occurrence scan for every pattern suffix.",
+ "Compositional: the harness implements FMIndexable with occ/less given by their definitions (counting loops over the BWT computed from the assumed-sorted suffix array) and runs the REAL backward_search on it; exactness of the real Occ/less/bwt tables is C04's subject. Bound: text n<=10 over {A,C} (n<=7 over {A,C,G,T}), 1-2 sentinels, pattern m<=4 incl. patterns longer than the text. " + TRUST + "Not decided: the three one-line delegations in impl FMIndexable for FMIndex<DBWT,DLess,DOcc> together with heap-built components (35 GB, measured), resolution through SampledSuffixArray, FMDIndex.",
+ ["bio::data_structures::fmindex::FMIndexable::backward_search (provided method)", "bio::data_structures::fmindex::{Interval, BackwardSearchResult}"],
+ "see level_note", "texts longer than 10; the FMIndex glue impl over real Occ tables; sampled suffix arrays", ["suffix array = the (unique) permutation under which adjacent suffixes are strictly increasing in byte order with shorter-is-smaller tie-break (sentinel-free patterns make the order among sentinel suffixes irrelevant)"])
+for h, t, b, tier in [
+ ("c05_bs_n4_m1", 9, "n=4 {A,C}$, m=1", "quick"), ("c05_bs_n4_m2", 11, "n=4, m=2", "quick"), ("c05_bs_n5_m2", 12, "n=5, m=2", "quick"),
+ ("c05_bs_n5_m3", 14, "n=5, m=3", "quick"), ("c05_bs_n6_m2", 19, "n=6, m=2", "quick"), ("c05_bs_n6_m3", 20, "n=6, m=3", "quick"),
+ ("c05_bs_n5_m2_multi", 13, "n=5, second sentinel at a symbolic position, m=2", "quick"), ("c05_bs_n6_m3_multi", 21, "n=6, two sentinels, m=3", "quick"),
+ ("c05_bs_n3_m4", 10, "n=3, m=4 (pattern longer than text)", "quick"),
+]:
+    add(h, t, b, tier=tier)
+
+# ---------------------------------------------------------------------------------------------------------------- C09
+add = prop("C09", "c09",
+ "Bounded model checking of the real single-word Myers matcher (u8/u16/u32/u64 words) and of distance()/find_best_end() of the block-based matcher: for each listed (pattern length m, text length n, alphabet) ALL pattern/text contents and ALL thresholds k<=m+1 are covered by one solver query; find_all_end must yield exactly the (end, d) pairs of a textbook semi-global edit-distance DP with d<=k, in text order, distance() the minimum and find_best_end() the first argmin.",
+ "Bound: Myers<u8> m in {1,3,7,8}, n<=5; Myers<u16> m in {3,16}; Myers<u32> m in {3,32}; Myers<u64> m in {3,63,64} (two-symbol alphabets for the full-width patterns); long::Myers<u8>::{distance,find_best_end} at m in {3,9}, n<=2. " + TRUST + "Not decided: long::Myers::find_all_end (per-column Vec<State> growing/truncating under symbolic conditions: out of memory at m=9,n=1), Ukkonen (out of memory at m=2,n=3), MyersBuilder ambiguity maps (std HashMap), distance::{hamming,levenshtein,simd::*} (editdistancek / triple_accel: timeout at 2x2, SIMD intrinsics unmodelled).",
+ ["bio::pattern_matching::myers::Myers<T>::{new,new_ambig,_step,step,initial_state,distance,find_all_end,find_best_end} for T in {u8,u16,u32,u64}", "myers::myers_impl::Matches::next", "myers::State::{init,known_dist}", "bio::pattern_matching::myers::long::Myers<u8>::{new,distance,find_best_end}", "long::States::{new,add_state,step,known_dist}", "long::advance_block"],
+ "see level_note", "patterns/texts beyond the listed sizes; ambiguity/wildcard tables; Ukkonen; the distance module", [])
+for h, t, b, tier in [
+ ("c09_myers_u8_m1_n3", 29, "Myers<u8> m=1 n=3, all bytes, k<=2", "quick"), ("c09_myers_u8_m3_n4", 78, "Myers<u8> m=3 n=4, all bytes, k<=4", "quick"),
+ ("c09_myers_u8_m3_n5_a3", 60, "Myers<u8> m=3 n=5, bytes<3", "quick"), ("c09_myers_u8_m7_n3_a2", 53, "Myers<u8> m=7 n=3, bytes<2", "quick"),
+ ("c09_myers_u8_m8_n3_a2", 46, "Myers<u8> m=8 (full word) n=3, bytes<2", "quick"), ("c09_myers_u16_m3_n4", 111, "Myers<u16> m=3 n=4, all bytes", "quick"),
+ ("c09_myers_u16_m16_n3_a2", 113, "Myers<u16> m=16 (full word) n=3, bytes<2", "quick"), ("c09_myers_u32_m3_n4", 188, "Myers<u32> m=3 n=4", "thorough"),
+ ("c09_myers_u32_m32_n2_a2", 183, "Myers<u32> m=32 (full word) n=2, bytes<2", "quick"), ("c09_myers_u64_m3_n4", 335, "Myers<u64> m=3 n=4", "thorough"),
+ ("c09_myers_u64_m63_n2_a2", 556, "Myers<u64> m=63 n=2, bytes<2", "thorough"), ("c09_myers_u64_m64_n2_a2", 588, "Myers<u64> m=64 (full word) n=2, bytes<2", "thorough"),
+ ("c09_long_u8_dist_m3_n2_a2", 25, "long::Myers<u8> distance/find_best_end, m=3 (1 block) n=2", "quick"),
+ ("c09_long_u8_dist_m9_n1_a2", 31, "long::Myers<u8> distance/find_best_end, m=9 (2 blocks) n=1", "quick"),
+ ("c09_long_u8_dist_m9_n2_a2", 29, "long::Myers<u8> distance/find_best_end, m=9 (2 blocks) n=2", "quick"),
+]:
+    add(h, t, b, tier=tier, role="long_distance" if "long" in h else "myers_simple")
+
 json.dump(P, open(os.path.join(V, "instances.json"), "w"), indent=1)
 print({k: len(v["instances"]) for k, v in P.items()})
